@@ -41,6 +41,22 @@ def gen(rng, tier):
                               spec="spec.pbkdf2buf %s %s %s %d %d" % (t, hexs(P), hexs(S), c, dk)))
         P = contents(rng, 7); S = contents(rng, 16); PEP = contents(rng, 11)
         cases.append(Case("pepper %s %s %s %s 2 %d" % (t, hexs(P), hexs(S), hexs(PEP), d + 3), "pepper %s" % t, True, spec="spec.pepper %s %s %s %s 2 %d" % (t, hexs(P), hexs(S), hexs(PEP), d + 3)))
+    # coinciding lengths / operands (a comparison of two secrets with each other is a data-dependent branch too)
+    for t in HASHES:
+        d = DS[t]
+        for n in [16, 32]:
+            X = contents(rng, n, "rand"); Y = contents(rng, n, "rand"); Z = contents(rng, n, "rand")
+            for (P, S, PEP, cls) in [(Z, X, Y, "equal-lengths"), (Z, X, X, "pepper==salt"), (X, X, Y, "password==salt"), (X, Y, X, "password==pepper")]:
+                cases.append(Case("pepper %s %s %s %s 2 %d" % (t, hexs(P), hexs(S), hexs(PEP), d), "pepper %s %s n=%d" % (t, cls, n), True,
+                                  spec="spec.pepper %s %s %s %s 2 %d" % (t, hexs(P), hexs(S), hexs(PEP), d)))
+            cases.append(Case("pbkdf2 %s %s %s 2 %d" % (t, hexs(X), hexs(Y), d), "pbkdf2 %s |P|==|S| n=%d" % (t, n), True, spec="spec.pbkdf2 %s %s %s 2 %d" % (t, hexs(X), hexs(Y), d)))
+            cases.append(Case("pbkdf2buf %s %s %s 2 %d" % (t, hexs(X), hexs(X), d), "pbkdf2buf %s P==S n=%d" % (t, n), True, spec="spec.pbkdf2buf %s %s %s 2 %d" % (t, hexs(X), hexs(X), d)))
+            cases.append(Case("hmac %s %s %s" % (t, hexs(X), hexs(Y)), "hmac %s |k|==|m| n=%d" % (t, n), True, spec="spec.hmac %s %s %s" % (t, hexs(X), hexs(Y))))
+            cases.append(Case("hmac %s %s %s" % (t, hexs(X), hexs(X)), "hmac %s k==m n=%d" % (t, n), True, spec="spec.hmac %s %s %s" % (t, hexs(X), hexs(X))))
+    for n in [1, 32]:
+        X = contents(rng, n, "rand"); Y = contents(rng, n, "rand")
+        cases.append(Case("hkdfx %s %s" % (hexs(X), hexs(Y)), "hkdfx |ikm|==|salt| n=%d" % n, True, spec="spec.hkdfx %s %s" % (hexs(X), hexs(Y))))
+        cases.append(Case("hkdfx %s %s" % (hexs(X), hexs(X)), "hkdfx ikm==salt n=%d" % n, True, spec="spec.hkdfx %s %s" % (hexs(X), hexs(X))))
     for il, sl in [(0, "null"), (1, 0), (22, 13), (64, 32), (65, 65), (200, 1)]:
         ikm = contents(rng, il); salt = "null" if sl == "null" else hexs(contents(rng, sl))
         cases.append(Case("hkdfx %s %s" % (hexs(ikm), salt), "hkdfx ikm=%d" % il, True, spec="spec.hkdfx %s %s" % (hexs(ikm), salt)))
